@@ -316,6 +316,10 @@ class _Twins:
         self.data = data
         self.flags = set(data["flags"])
         self.opaque = bool(data.get("opaque"))
+        # every third history passes, for each root argument, one and the same list object on every call of the cached
+        # twin and changes its content in place between calls (the uncached twin gets a new list each time)
+        self.alias = (not self.opaque) and len(data["ops"]) % 3 == 0
+        self.live: dict = {}
         self.cur = copy.deepcopy(data["prog"])  # current program (cached twin's view: "cache" flags kept)
         self.cached = {fn["name"] for fn in self.cur["funcs"] if fn["cache"]}
         self.log_u: list = []
@@ -469,6 +473,13 @@ class _Twins:
 
         kw_u = {n: fresh(n, v) for n, v in recipe}
         kw_c = {n: fresh(n, v) for n, v in recipe}
+        if self.alias:
+            self.labels.add("roots-are-one-list-object-changed-in-place")
+            for n, v in recipe:
+                if n not in m.producer:
+                    kw_u[n] = [fresh(n, v)]
+                    self.live.setdefault(n, [])[:] = [fresh(n, v)]
+                    kw_c[n] = self.live[n]
         supplied = {n for n in kw_u if n in m.producer}
         cone = m.cone(out, supplied)
         on_path = [f for f in cone if f in self.cached]
@@ -844,6 +855,33 @@ def body_map(data) -> Outcome:
                 mp.expected_call_counts(prog)[f] for f in cached_names
             ):
                 out.labels.append("map:cache-hit-observed")
+        # ---- a mutation between maps (no pipeline(...) call in between): one function is replaced by another with
+        # the same output name and parameters; the next map must show the new function's results everywhere
+        if ex_kind == "seq" and not out.failures and len(data["mods"]) and data["mods"][0] % 2:
+            j = data["mods"][1] % len(prog["funcs"])
+            prog2 = copy.deepcopy(prog)
+            prog2["funcs"][j]["name"] += "v2"
+            try:
+                new_pf = mp.make_pipefuncs(prog2, log, **{f: {"cache": True} for f in cached_names if f != prog["funcs"][j]["name"]},
+                                           **({prog2["funcs"][j]["name"]: {"cache": True}} if prog["funcs"][j]["name"] in cached_names else {}))[j]  # fmt: skip
+                pipe_c.replace(new_pf)
+                ref2 = _canon_outputs(prog2, mp.build_pipeline(prog2).map(inputs, run_folder=folder_u, parallel=False, **base_kw))
+            except Exception:
+                out.labels.append("n/a:replace-refused")
+                ref2 = None
+            if ref2 is not None:
+                out.labels.append("map:replace-between-maps")
+                units += 1
+                try:
+                    got = _canon_outputs(prog2, pipe_c.map(inputs, run_folder=folder_c, parallel=False, **base_kw))
+                    for o in ref2:
+                        if got[o][0] != ref2[o][0]:
+                            stale = got[o][0] == ref[o][0]
+                            out.fail("map-after-replace-" + ("stale-results-of-the-replaced-function" if stale else "value-differs"),
+                                     f"{o}: cached {str(got[o][0])[:220]} uncached {str(ref2[o][0])[:220]}")
+                            break
+                except Exception as e:
+                    out.fail(exc_bucket(e, "map-after-replace-raised"), exc_detail(e))
         out.units = max(1, units)
     finally:
         while executors:
